@@ -107,6 +107,47 @@ theorem noSelfCallB_iff (hb : Bounded D) : noSelfCallB D = true ↔ NoSelfCall D
   · intro h m ch hi; exact h m hi.root_lt ch ((mem_chainsOf hb).2 hi)
   · intro h m _ ch hm; exact h m ch ((mem_chainsOf hb).1 hm)
 
+/-! Recursion makes chains arbitrarily long, so `Bounded` alone excludes it. -/
+
+theorem IsChain.append {D : Design} : ∀ {b : Nat} {ch2 : List Call}, IsChain D b ch2 →
+    ∀ {r : Nat} {ch1 : List Call}, IsChain D r ch1 → target ch1 = some b → IsChain D r (ch1 ++ ch2)
+  | _, _, .single hm, _, _, h1, ht => h1.ext ht hm
+  | _, _, .cons (c := c) (ch := ch) hm hch, r, ch1, h1, ht => by
+    have := IsChain.append hch (h1.ext ht hm) (target_append_singleton ch1 c)
+    simpa using this
+
+theorem target_append_of_ne_nil (a : List Call) {b : List Call} (hb : b ≠ []) : target (a ++ b) = target b := by
+  unfold target
+  obtain ⟨x, xs, rfl⟩ := List.exists_cons_of_ne_nil hb
+  rw [List.getLast?_append]
+  cases h : (x :: xs).getLast? with
+  | none => simp at h
+  | some y => simp
+
+/-- `k+1` copies of a chain -/
+def repChain : Nat → List Call → List Call
+  | 0, ch => ch
+  | k+1, ch => ch ++ repChain k ch
+
+theorem repChain_spec {m : Nat} {ch : List Call} (hi : IsChain D m ch) (ht : target ch = some m) :
+    ∀ k, IsChain D m (repChain k ch) ∧ target (repChain k ch) = some m ∧ k < (repChain k ch).length
+  | 0 => ⟨hi, ht, by
+      obtain ⟨c, rest, rfl, _⟩ := hi.head_mem
+      simp [repChain]⟩
+  | k+1 => by
+    obtain ⟨h1, h2, h3⟩ := repChain_spec hi ht k
+    refine ⟨IsChain.append h1 hi ht, ?_, ?_⟩
+    · simp only [repChain]; rw [target_append_of_ne_nil _ h1.ne_nil]; exact h2
+    · obtain ⟨c, rest, rfl, _⟩ := hi.head_mem
+      simp only [repChain, List.length_append, List.length_cons] at h3 ⊢
+      omega
+
+theorem noSelfCall_of_bounded (hb : Bounded D) : NoSelfCall D := by
+  intro m ch hi ht
+  obtain ⟨h1, _, h3⟩ := repChain_spec hi ht D.n
+  have := hb m _ h1
+  omega
+
 /-- "a transaction tree calls an exclusive method twice on paths that are not mutually exclusive":
 the negation, for every root (`validate_root_call_tree` is run on every method and transaction) -/
 def NoDoubleCall (D : Design) : Prop := ∀ r, ValidRoot D r
